@@ -158,11 +158,12 @@ Definition sec2gmt_float (bits nd : Z) : bytes :=
   let '(s, ns) := split_sec2gmt (sf_of_bits bits) in fmt_time false s ns nd.
 
 (* ------------------------------------------------------------------ strftime (lestrrat + Miller extensions) *)
-(* extensionRegex "([1-9])S" -> "$1", applied to the whole format text, percent or not *)
+(* extensionRegex "%([1-9])S" -> "%$1", applied to the raw format text (so "%%5S" is rewritten too: the regex
+   does not know that the first '%' of "%5S" is the second byte of "%%") *)
 Fixpoint ext_rewrite (f : bytes) : bytes :=
   match f with
-  | c :: ((s :: t) as rest) =>
-      if in_range "1" "9" c && Ascii.eqb s "S" then c :: ext_rewrite t else c :: ext_rewrite rest
+  | p :: ((c :: ((s :: t) as r2)) as r1) =>
+      if Ascii.eqb p "%" && in_range "1" "9" c && Ascii.eqb s "S" then p :: c :: ext_rewrite t else p :: ext_rewrite r1
   | _ => f
   end.
 
@@ -185,7 +186,6 @@ Definition strftime_verb (c : ascii) (sec nsec : Z) : option bytes :=
   else if Ascii.eqb c "N" then Some (padnn 9 nsec)
   else if Ascii.eqb c "O" then Some (dec nsec)
   else if Ascii.eqb c "%" then Some ["%"]
-  else if Ascii.eqb c "8" then Some (frac_sec x nsec 8 9)       (* appender8 uses "%09d" with quotient 10 *)
   else if in_range "1" "9" c then
     let n := Z.to_nat (dval c) in Some (frac_sec x nsec n n)
   else None.
@@ -274,6 +274,21 @@ Definition parse_frac (s : bytes) : option Z :=
       else None
   end.
 
+(* the range checks time.Parse applies per field *)
+Definition upd (c : ascii) (v ns : Z) (acc : ptm) : option ptm :=
+  if Ascii.eqb c "S" then
+    if v <? 60 then Some {| p_y := p_y acc; p_mo := p_mo acc; p_d := p_d acc; p_h := p_h acc; p_mi := p_mi acc; p_s := v; p_ns := ns; p_j := p_j acc |} else None
+  else if Ascii.eqb c "Y" then Some {| p_y := Some v; p_mo := p_mo acc; p_d := p_d acc; p_h := p_h acc; p_mi := p_mi acc; p_s := p_s acc; p_ns := p_ns acc; p_j := p_j acc |}
+  else if Ascii.eqb c "m" then
+    if (1 <=? v) && (v <=? 12) then Some {| p_y := p_y acc; p_mo := Some v; p_d := p_d acc; p_h := p_h acc; p_mi := p_mi acc; p_s := p_s acc; p_ns := p_ns acc; p_j := p_j acc |} else None
+  else if Ascii.eqb c "d" then Some {| p_y := p_y acc; p_mo := p_mo acc; p_d := Some v; p_h := p_h acc; p_mi := p_mi acc; p_s := p_s acc; p_ns := p_ns acc; p_j := p_j acc |}
+  else if Ascii.eqb c "H" then
+    if v <? 24 then Some {| p_y := p_y acc; p_mo := p_mo acc; p_d := p_d acc; p_h := v; p_mi := p_mi acc; p_s := p_s acc; p_ns := p_ns acc; p_j := p_j acc |} else None
+  else if Ascii.eqb c "M" then
+    if v <? 60 then Some {| p_y := p_y acc; p_mo := p_mo acc; p_d := p_d acc; p_h := p_h acc; p_mi := v; p_s := p_s acc; p_ns := p_ns acc; p_j := p_j acc |} else None
+  else if Ascii.eqb c "j" then Some {| p_y := p_y acc; p_mo := p_mo acc; p_d := p_d acc; p_h := p_h acc; p_mi := p_mi acc; p_s := p_s acc; p_ns := p_ns acc; p_j := Some v |}
+  else None.
+
 Definition set_field (c : ascii) (comp : bytes) (w : nat) (acc : ptm) : option ptm :=
   let comp := zero_pad_left comp w in
   let body := firstn w comp in
@@ -283,21 +298,8 @@ Definition set_field (c : ascii) (comp : bytes) (w : nat) (acc : ptm) : option p
   | None => None
   | Some v =>
       if Ascii.eqb c "S" then
-        match parse_frac extra with
-        | Some ns => if v <? 60 then Some {| p_y := p_y acc; p_mo := p_mo acc; p_d := p_d acc; p_h := p_h acc; p_mi := p_mi acc; p_s := v; p_ns := ns; p_j := p_j acc |} else None
-        | None => None
-        end
-      else match extra with
-      | _ :: _ => None
-      | [] =>
-        if Ascii.eqb c "Y" then Some {| p_y := Some v; p_mo := p_mo acc; p_d := p_d acc; p_h := p_h acc; p_mi := p_mi acc; p_s := p_s acc; p_ns := p_ns acc; p_j := p_j acc |}
-        else if Ascii.eqb c "m" then if (1 <=? v) && (v <=? 12) then Some {| p_y := p_y acc; p_mo := Some v; p_d := p_d acc; p_h := p_h acc; p_mi := p_mi acc; p_s := p_s acc; p_ns := p_ns acc; p_j := p_j acc |} else None
-        else if Ascii.eqb c "d" then Some {| p_y := p_y acc; p_mo := p_mo acc; p_d := Some v; p_h := p_h acc; p_mi := p_mi acc; p_s := p_s acc; p_ns := p_ns acc; p_j := p_j acc |}
-        else if Ascii.eqb c "H" then if v <? 24 then Some {| p_y := p_y acc; p_mo := p_mo acc; p_d := p_d acc; p_h := v; p_mi := p_mi acc; p_s := p_s acc; p_ns := p_ns acc; p_j := p_j acc |} else None
-        else if Ascii.eqb c "M" then if v <? 60 then Some {| p_y := p_y acc; p_mo := p_mo acc; p_d := p_d acc; p_h := p_h acc; p_mi := v; p_s := p_s acc; p_ns := p_ns acc; p_j := p_j acc |} else None
-        else if Ascii.eqb c "j" then Some {| p_y := p_y acc; p_mo := p_mo acc; p_d := p_d acc; p_h := p_h acc; p_mi := p_mi acc; p_s := p_s acc; p_ns := p_ns acc; p_j := Some v |}
-        else None
-      end
+        match parse_frac extra with Some ns => upd c v ns acc | None => None end
+      else match extra with _ :: _ => None | [] => upd c v 0 acc end
   end.
 
 Inductive presult := POk (ns : Z) | PErr | POutOfModel.
@@ -382,7 +384,7 @@ Definition strp_exact (inp f : bytes) : presult :=
 Definition strpntime (inp f : bytes) : presult :=
   match strp_exact inp f with POk ns => POk (wrap64 ns) | r => r end.
 
-(* strptime returns float64(t.UnixNano()) / 1e9: bits of the binary64 result *)
+(* strptime returns float64(t.Unix()) + float64(t.Nanosecond()) / 1e9: bits of the binary64 result *)
 Definition bits_of_sf (f : spec_float) : Z :=
   match f with
   | S754_zero s => if s then 2 ^ 63 else 0
@@ -392,14 +394,15 @@ Definition bits_of_sf (f : spec_float) : Z :=
       (if s then 2 ^ 63 else 0) +
       (if Zpos m <? 2 ^ 52 then Zpos m else (e + 1075) * 2 ^ 52 + (Zpos m - 2 ^ 52))
   end.
-Definition sec_bits_of_ns (ns : Z) : Z := bits_of_sf (SFdiv prec emax (sf_of_Z ns) sf_1e9).
+Definition sec_bits_of_ns (ns : Z) : Z :=
+  bits_of_sf (SFadd prec emax (sf_of_Z (ns / 1000000000)) (SFdiv prec emax (sf_of_Z (ns mod 1000000000)) sf_1e9)).
 Definition strptime_bits (inp f : bytes) : option Z :=
-  match strpntime inp f with POk ns => Some (sec_bits_of_ns ns) | _ => None end.
+  match strp_exact inp f with POk ns => Some (sec_bits_of_ns ns) | _ => None end.
 
 Definition ISO_FMT : bytes := B "%Y-%m-%dT%H:%M:%SZ".
 Definition gmt2nsec (s : bytes) : presult := strpntime s ISO_FMT.
 Definition gmt2sec_bits (s : bytes) : option Z := strptime_bits s ISO_FMT.
-(* the instant the text denotes, without the int64 wrap: what gmt2sec would return if it used t.Unix() *)
+(* the instant the text denotes in whole seconds: t.Unix() *)
 Definition gmt2sec_exact (s : bytes) : option Z :=
   match strp_exact s ISO_FMT with POk ns => Some (ns / 1000000000) | _ => None end.
 
@@ -544,8 +547,7 @@ Definition of_local (z : ztable) (l : Z) : Z :=
 (* sec2localtime / gmt2localtime text, localtime2gmt *)
 Definition sec2localtime_int (z : ztable) (n nd : Z) : bytes := fmt_time true (to_local z n) 0 nd.
 Definition LOCAL_FMT : bytes := B "%Y-%m-%d %H:%M:%S".
-(* wall-clock text -> instant (ParseInLocation); the int64-nanosecond wrap of strptime is left out here:
-   the zone tables only cover instants inside the nanosecond range *)
+(* wall-clock text -> instant (ParseInLocation), whole seconds *)
 Definition localtime2sec (z : ztable) (s : bytes) : option Z :=
   match strp_exact s LOCAL_FMT with
   | POk ns => Some (of_local z (ns / 1000000000))
